@@ -206,10 +206,42 @@ def build_target(spec, cache=None, member_cache=None):
 def model_list(spec, bound=None):
     """Reference list: the uncached twin (every member uncached too)."""
     twin = build_target(spec, cache=False, member_cache=False)
-    with K.mute():
+    saved = K.budget
+    s0 = K.steps
+    K.budget = s0 + MODEL_COST_CAP
+    try:
         if spec.get("unbounded"):
-            return list(itertools.islice(twin, bound or 120))
-        return list(twin)
+            L = list(itertools.islice(twin, bound or 120))
+        else:
+            L = list(twin)
+    except BudgetExceeded:
+        raise ModelTooCostly()
+    finally:
+        K.budget = saved
+    global LAST_MODEL_COST
+    LAST_MODEL_COST = K.steps - s0
+    return L
+
+
+LAST_MODEL_COST = 0
+MODEL_COST_CAP = 400000
+
+
+class ModelTooCostly(Exception):
+    """The uncached twin needs more than MODEL_COST_CAP line events to list
+    (e.g. a rule that scans to year 9999 without matching): the scenario is
+    skipped as trivial, deterministically."""
+
+
+def budget_for(cost):
+    """Step budget of one operation, from the measured cost (line events) of
+    listing the uncached twin once."""
+    return 6 * cost + 30000
+
+
+def _unused():
+    with K.mute():
+        pass
 
 
 def set_model(rules_L, rdates, exrules_L, exdates):
@@ -245,6 +277,18 @@ def resolve(ref, L, base):
     return e + datetime.timedelta(seconds=delta)
 
 
+def ridx(x, L):
+    """Index expression: int, None, or ["len", off] meaning len(L)+off,
+    ["neglen", off] meaning -len(L)+off."""
+    if isinstance(x, list):
+        if x[0] == "len":
+            return len(L) + x[1]
+        if x[0] == "neglen":
+            return -len(L) + x[1]
+        raise ValueError(x)
+    return x
+
+
 class Raises(object):
     def __init__(self, exc):
         self.exc = exc
@@ -267,12 +311,12 @@ def model_answer(op, L, base):
         return list(L)
     if k == "getitem":
         try:
-            return L[op[1]]
+            return L[ridx(op[1], L)]
         except IndexError:
             return Raises("IndexError")
     if k == "slice":
         try:
-            return L[op[1]:op[2]:op[3]]
+            return L[ridx(op[1], L):ridx(op[2], L):op[3]]
         except ValueError:
             return Raises("ValueError")
     if k == "contains":
@@ -314,9 +358,9 @@ def real_answer(op, target, L, base):
         if k == "list":
             return list(target)
         if k == "getitem":
-            return target[op[1]]
+            return target[ridx(op[1], L)]
         if k == "slice":
-            return target[op[1]:op[2]:op[3]]
+            return target[ridx(op[1], L):ridx(op[2], L):op[3]]
         if k == "contains":
             return resolve(op[1], L, base) in target
         if k == "after":
@@ -360,9 +404,11 @@ def is_unbounded_safe(op):
     if k in ("count", "list"):
         return False
     if k == "getitem":
-        return op[1] >= 0
+        return isinstance(op[1], int) and op[1] >= 0
     if k == "slice":
         a, b, c = op[1], op[2], op[3]
+        if isinstance(a, list) or isinstance(b, list):
+            return False
         return (b is not None and b >= 0 and (a is None or a >= 0) and
                 (c is None or c > 0))
     if k == "xafter":
